@@ -21,6 +21,7 @@ const pebblePkg = "github.com/cockroachdb/pebble"
 func checkC11(c *chk.Ctx) {
 	h := newH(c)
 	c.Decided = []string{
+		"R11e list and range-scan hand the request's own bounds to the engine: no substituted end of range (under the slash order there is no key that closes the user key space)",
 		"R11a every pebble.Comparer literal with a custom Compare pairs it with Separator/Successor functions that are order-agnostic by shape (return the lower key itself)",
 		"R11b every ordering decision on keys outside the engine resolves to the slash comparator (heap Less methods, response selection, index walks); no bytewise string ordering of keys in the client/server packages",
 		"R11c the comparator is antisymmetric: mirrored inputs give the negated result in every abstract case of its branch atoms",
@@ -34,6 +35,7 @@ func checkC11(c *chk.Ctx) {
 	ruleR11b(h)
 	ruleR11c(h)
 	ruleR11d(h)
+	ruleR11e(h)
 }
 
 // isDefaultComparerField: v loads pebble.DefaultComparer.<field>
@@ -751,4 +753,32 @@ func cutCall(ex *ssa.Extract) *ssa.Call {
 		return nil
 	}
 	return c
+}
+
+// ruleR11e: DB.List and DB.RangeScan scan exactly [StartInclusive, EndExclusive) of the
+// request. An open end is an open end: under the hierarchical order user keys lie on both
+// sides of every "sentinel" one might substitute for it, so a replaced bound silently
+// drops keys that exact gets and floor/ceiling lookups still see.
+func ruleR11e(h *H) {
+	const rule = "R11e"
+	h.Rule(rule, "K6", "the bounds DB.List / DB.RangeScan pass to the KV range scans are the request's StartInclusive / EndExclusive fields themselves", 2)
+	n := 0
+	for _, m := range []struct{ method, msg string }{{"List", "ListRequest"}, {"RangeScan", "RangeScanRequest"}} {
+		for _, root := range h.P.ImplMethods("server/kv", "DB", m.method) {
+			restore := bindRegion(root)
+			for _, fn := range helperFuncs(root) {
+				h.Fn(ir.FuncName(fn))
+				for _, c := range h.P.CallsIn(fn, ir.Callee{Pkg: "server/kv", Recv: "KV", Name: "KeyRangeScan"}, ir.Callee{Pkg: "server/kv", Recv: "KV", Name: "RangeScan"}, ir.Callee{Pkg: "server/kv", Recv: "KV", Name: "KeyRangeScanReverse"}) {
+					n++
+					lo, hi := argOf(c.Common(), 0), argOf(c.Common(), 1)
+					ok := isMsgField(lo, m.msg, "StartInclusive") && isMsgField(hi, m.msg, "EndExclusive")
+					h.Verdict(ok, rule, fmt.Sprintf("scan bounds of DB.%s", m.method), h.pos(c), "request.StartInclusive / request.EndExclusive", "the range handed to the engine is not the request's own [StartInclusive, EndExclusive): keys inside the requested range can be left out (or keys outside it returned) although exact gets still find them")
+				}
+			}
+			restore()
+		}
+	}
+	if n == 0 {
+		h.Anchor(rule, "KV range scans in the DB.List / DB.RangeScan implementations")
+	}
 }
